@@ -289,16 +289,18 @@ fn check_triple(rep: &mut Report, number: u16, sats: &[u8], sig_pos: &[u8], cell
         }
         for (i, r) in r1s.iter().enumerate() {
             if *r != r0s[i] {
-                if let Some(j) = r0s.iter().position(|x| x == r) {
-                    return fail(rep, "sat-row-misplaced", format!("satellite row {} carries the data of row {}", i, j));
-                }
+                return match r0s.iter().position(|x| x == r) {
+                    Some(j) => fail(rep, "sat-row-misplaced", format!("satellite row {} carries the data of row {}", i, j)),
+                    None => fail(rep, "sat-row-changed", format!("satellite row {} changes through encode/decode: {} became {}", i, r0s[i], r)),
+                };
             }
         }
         for (i, r) in r1c.iter().enumerate() {
             if *r != r0c[i] {
-                if let Some(j) = r0c.iter().position(|x| x == r) {
-                    return fail(rep, "cell-row-misplaced", format!("cell row {} carries the data of row {}", i, j));
-                }
+                return match r0c.iter().position(|x| x == r) {
+                    Some(j) => fail(rep, "cell-row-misplaced", format!("cell row {} carries the data of row {}", i, j)),
+                    None => fail(rep, "cell-row-changed", format!("cell row {} changes through encode/decode: {} became {}", i, r0c[i], r)),
+                };
             }
         }
     }
